@@ -1,8 +1,20 @@
 import XModel.ManagerFrame
+import XModel.ManagerC13
+import XProofs.Properties.C01
 /-!
 # C13 — generated setter functions are equivalent to assigning through the manager
 Model: `Manager.execGen` (the body `mk_fun` prints: argument assignments, then the listed tasks in
 order, executed on the containers without the manager).
+
+`C13_equivalent` is the property's main clause on the executable model: for any list of arguments — plain existing
+locations away from every definition — any legal order of the generated listing and any legal schedules of the
+manager's own propagations, the function and the sequence of assignments through the manager end with the *same*
+container tree (and the same definitions and indices).  The proof: both end with every definition holding (C01),
+both only ever write argument locations and triggered targets (`Store.Reach`), values at triggered targets are
+unique along the dependency order, and a tree reached by such writes is determined by its values there
+(`Store.Reach.eq_of_agree`, the normal form of `XModel/StoreNF.lean`).  `C13_listing`: the listing has each
+triggered task once, exactly the downstream ones, producers first (C02).  Outside the theorems: `exec` of the
+printed source (C11's parser assumption); division by zero is excluded by the property.
 -/
 namespace Properties.C13
 open Store Push Index Manager
@@ -45,5 +57,48 @@ theorem C13_graph_untouched (sched : Sched) (s : MState) (args : List (Path × V
     split
     · exact h1
     · next l _ => exact h1.trans (runTasks_graph l s1)
+
+/-- **the generated function ≡ assigning through the manager**, any number of arguments -/
+theorem C13_equivalent (schedG schedS : Sched) (s : MState) (args : List (Path × Val)) (hi : MInv s)
+    (hc : Consistent s) (gs : GenScope s args)
+    (hvsG : ValidSched (gOf s.idx) (findTaskids s.idx (argDeps args)) (schedG (findTaskids s.idx (argDeps args))))
+    (hvsS : ∀ a ∈ args, ValidSched (gOf s.idx) (findTaskids s.idx (chainR a.1)) (schedS (findTaskids s.idx (chainR a.1))))
+    (sG : MState) (hG : execGen schedG s args = (sG, none))
+    (sS : MState) (hS : assignAll schedS s args = (sS, none)) :
+    sG.store = sS.store ∧ sG.defs = sS.defs ∧ sG.idx = sS.idx :=
+  execGen_equiv_assignAll schedG schedS s args hi hc gs hvsG hvsS sG hG sS hS
+
+/-- after the generated function every definition holds (and the arguments hold their values) -/
+theorem C13_generated_consistent (sched : Sched) (s : MState) (args : List (Path × Val)) (hi : MInv s)
+    (hc : Consistent s) (gs : GenScope s args)
+    (hvs : ValidSched (gOf s.idx) (findTaskids s.idx (argDeps args)) (sched (findTaskids s.idx (argDeps args))))
+    (s' : MState) (hok : execGen sched s args = (s', none)) :
+    Consistent s' ∧ ∀ a ∈ args, get s'.store a.1 = .ok a.2 :=
+  ⟨(execGen_facts sched s args hi hc gs hvs s' hok).1, (execGen_facts sched s args hi hc gs hvs s' hok).2.2.2.2⟩
+
+/-- the listing `mk_fun` prints: each triggered task once, exactly the downstream ones, producers first -/
+theorem C13_listing (s : MState) (hi : MInv s) (args : List (Path × Val))
+    (hac : ∀ a b, (∃ s0 ∈ startOf s.idx (argDeps args), Dfs3.Reach (gOf s.idx) s0 a) → a ≠ b →
+      Dfs3.Reach (gOf s.idx) a b → Dfs3.Reach (gOf s.idx) b a → False) :
+    (findTaskids s.idx (argDeps args)).Nodup ∧
+    (∀ x, x ∈ findTaskids s.idx (argDeps args) ↔ ∃ s0 ∈ startOf s.idx (argDeps args), Dfs3.Reach (gOf s.idx) s0 x) ∧
+    (∀ u w, u ∈ findTaskids s.idx (argDeps args) → w ∈ gOf s.idx u → w ≠ u →
+      Dfs3.Before (findTaskids s.idx (argDeps args)) u w) :=
+  findTaskids_spec s hi (argDeps args) hac
+
+/-- the decidable scope test is sound -/
+theorem C13_scope_test_sound (s : MState) (hi : MInv s) (args : List (Path × Val)) (h : genScopeB s args = true) :
+    GenScope s args := genScopeB_sound s hi args h
+
+/-! non-vacuity: the chain of `Properties.C01` (c = a + b, e = c * a) and the two arguments a, b -/
+section example_
+open Properties.C01
+def base : MState := applyAll id s0 (hist.take 2)
+def twoArgs : List (Path × Val) := [(da, .int 5), (db, .int 4)]
+example : genScopeB base twoArgs = true := by decide
+example : (execGen id base twoArgs).2 = none ∧ (assignAll id base twoArgs).2 = none := ⟨rfl, rfl⟩
+example : get (execGen id base twoArgs).1.store de = .ok (.int 45) ∧
+    get (assignAll id base twoArgs).1.store de = .ok (.int 45) := ⟨rfl, rfl⟩
+end example_
 
 end Properties.C13
